@@ -7,7 +7,7 @@ import PpciVerif.Model.DataSeg
   skeleton ::= (c<b> | r<n> | B | L | I | E | .)*          instruction stream (`E` else, `.` end)
   shape    ::= N | b<k> | S<k> shape^k | I<b> shape shape | L shape | K<lvl> | C<lvl>
 
-  v <cfg> | <shape> | <skeleton>   → ok <acc|rej> <same|model:<tokens>|err:<Exc>>
+  v <cfg> | <shape> | <skeleton>   → ok <acc|rej> <same|model:<tokens>|err:<Exc>> [| same|inconclusive|differ bits=… cfg=… wasm=…]
         validator verdict on the real skeleton + does Model.compile(shape) reproduce it
   s <shape>                        → ok <tokens…> | err <Exc>        (Model.compile alone)
   d <cfg> | <skeleton> | L K F R   → ok same | ok inconclusive | ok differ bits=… cfg=… wasm=…
@@ -248,7 +248,16 @@ def step (line : String) : String :=
           | .error e => "err:" ++ e.name
         -- the two validators must agree whenever the model compiles the shape to the same skeleton
         let cs := if checkShape g s == check g w || cmp != "same" then "" else " checkShape-mismatch"
-        s!"ok {verdict} {cmp}{cs}"
+        -- a rejection is followed at once by a first search for a differing oracle (2^6 decision prefixes)
+        let srch := if check g w then "" else
+          let F := 150 + 3 * sk.length
+          match search g w 6 14 F 0 with
+          | (none, false) => " | same"
+          | (none, true) => " | inconclusive"
+          | (some bits, _) =>
+            let o := oracleOf g bits
+            s!" | differ bits={showBits bits} cfg={showTrace (cfgTrace g o 14)} wasm={showOut (execK g o 14 F w St.init)}"
+        s!"ok {verdict} {cmp}{cs}{srch}"
       | _, _, _ => "bad-op"
     | _ => "bad-op"
   | "s" :: rest =>
